@@ -282,6 +282,8 @@ fn run_in_tmp(sb: &Sandbox, check: bool, plan: Option<String>, tmpdir: Option<st
 pub fn check(h: &History) -> CaseOutcome
 {
     let mut o = CaseOutcome::default();
+    // the configuration path is spelled `Breadlog.yaml`, `./Breadlog.yaml` or absolute, fixed per history
+    let _cfg_form = crate::sandbox::ConfigFormGuard::new((crate::engine::hash_of(h) % 3) as u8);
     let sb = Sandbox::new();
     let cfg = ConfigSpec::simple(h.structured, if h.initial_files.len() % 2 == 0 { Some(true) } else { None });
     std::fs::write(sb.proj().join("Breadlog.yaml"), cfg.yaml()).unwrap();
